@@ -164,30 +164,54 @@ func (d Doc) Input() map[string]interface{} {
 	if d.HasFlag {
 		m["flag"] = d.Flag
 	}
+	// The elements of the object arrays are handed over in one of three Go shapes, chosen per document version: plain
+	// maps, pointers to maps inside []interface{}, or a typed slice of pointers. The content is the same.
+	shape := int(h64("shape", d.Ver) % 3)
+	arr := func(ms []map[string]interface{}) interface{} {
+		switch shape {
+		case 1:
+			out := make([]interface{}, len(ms))
+			for i := range ms {
+				out[i] = &ms[i]
+			}
+			return out
+		case 2:
+			out := make([]*map[string]interface{}, len(ms))
+			for i := range ms {
+				out[i] = &ms[i]
+			}
+			return out
+		}
+		out := make([]interface{}, len(ms))
+		for i := range ms {
+			out[i] = ms[i]
+		}
+		return out
+	}
 	if len(d.Items) > 0 {
-		its := make([]interface{}, len(d.Items))
+		its := make([]map[string]interface{}, len(d.Items))
 		for i, it := range d.Items {
 			im := map[string]interface{}{"color": it.Color, "size": it.Size}
 			if it.Note != "" {
 				im["note"] = it.Note
 			}
 			if len(it.Parts) > 0 {
-				ps := make([]interface{}, len(it.Parts))
+				ps := make([]map[string]interface{}, len(it.Parts))
 				for j, p := range it.Parts {
 					ps[j] = map[string]interface{}{"code": p.Code}
 				}
-				im["parts"] = ps
+				im["parts"] = arr(ps)
 			}
 			its[i] = im
 		}
-		m["items"] = its
+		m["items"] = arr(its)
 	}
 	if len(d.Extras) > 0 {
-		es := make([]interface{}, len(d.Extras))
+		es := make([]map[string]interface{}, len(d.Extras))
 		for i, e := range d.Extras {
 			es[i] = map[string]interface{}{"kind": e.Kind}
 		}
-		m["extras"] = es
+		m["extras"] = arr(es)
 	}
 	if len(d.Titles) > 0 {
 		ts := make([]interface{}, len(d.Titles))
